@@ -49,11 +49,13 @@ THEOREMS = [
     "PV.C13.ordM_locations_eq_spec",
     "PV.C13.ordM_linear_eq_random",
     "PV.C13.ordAt",
+    "PV.C13.parseRProgram_ordM",
     "PV.C13.parsed_ordM",
     "PV.C13.parsed_tree_srcOrdered",
     "PV.C13.parsed_tree_history_forward",
     "PV.C13.parsed_tree_locations_eq_spec",
     "PV.C13.parsed_tree_linear_eq_random",
+    "PV.C13.parsed_tree_srcOrdered_full_fails",
     "PV.C13.fstring_findings_reproduced",
     "PV.C13.bom_tokenless_module_all_ranges",
 ]
